@@ -64,6 +64,18 @@ CHECKS = {
     note="Trusted: CPython's pickle/copy build an isomorphic object graph following __reduce_ex__/__setstate__; C13/C11 trusted base; "
          "the source-to-Coq generator for the protocol methods (ast.unparse). No axioms.",
     technique="Coq proof (frame property + copy invariant) + generated protocol shape + model/implementation correspondence on restored objects"),
+ "C16": dict(
+    category="proof",
+    text="Theorems (Coq) over a model of Python attribute lookup and tables regenerated on every run from CPython (dir(str), dir(object)) "
+         "and /repo (StringMixIn's definitions and method bodies, names defined by each node class): a str name nobody defines is "
+         "delegated to str(x); a name str lacks raises AttributeError without rendering; every explicit magic method has a body that "
+         "delegates to str(self) with operands in order; no text behaviour of str is shadowed by object (only 13 object-describing names "
+         "are). Tied to /repo by comparing the model's lookup outcome with real lookup on live objects for every class x name, and by "
+         "an oracle applying every delegated name (25 argument tuples) and every operator to x and to str(x).",
+    design_ref="DESIGN.md section 5, C16",
+    note="Trusted: the lookup model (class MRO, mixin, object, __getattr__); the generator (introspection + ast.unparse); operators + * % "
+         "and 13 object-describing names are outside the claim; bytes(x) is compared with str(x).encode(default). No axioms.",
+    technique="Coq proof over generated tables (finite, vm_compute) + lookup model lemmas + differential oracle against str"),
 }
 
 NOT_YET = {}
